@@ -30,6 +30,7 @@ import (
 	"sync"
 	"sync/atomic"
 	"testing"
+	"testing/synctest"
 	"time"
 
 	"github.com/miekg/dns"
@@ -183,6 +184,12 @@ func (d vC13Down) String() string {
 
 // one client query through the real cache; returns rcode, EDE, downstream calls
 func vC13Serve(c *Cache, ednsH middleware.Handler, k vC13QKey, edns, do, wire bool, d vC13Down) (rcode int, ede int, calls int, scope netip.Prefix) {
+	return vC13ServeHold(c, ednsH, k, edns, do, wire, d, nil)
+}
+
+// the same with a hook that runs when the request enters the downstream handler
+// (before the scripted outcome is produced): cohort cases park requests there
+func vC13ServeHold(c *Cache, ednsH middleware.Handler, k vC13QKey, edns, do, wire bool, d vC13Down, hold func()) (rcode int, ede int, calls int, scope netip.Prefix) {
 	req := k.req()
 	if edns || k.scope.IsValid() {
 		req.SetEdns0(1232, do)
@@ -210,6 +217,9 @@ func vC13Serve(c *Cache, ednsH middleware.Handler, k vC13QKey, edns, do, wire bo
 	var n atomic.Int32
 	stub := middleware.HandlerFunc(func(hctx context.Context, ch *middleware.Chain) {
 		n.Add(1)
+		if hold != nil {
+			hold()
+		}
 		rq := ch.Request.Msg()
 		q := rq.Question[0]
 		resp := new(dns.Msg)
@@ -1134,6 +1144,326 @@ func vC13TimeoutCase(r *rand.Rand) map[string]any {
 	}
 }
 
+// ---------------------------------------------------------------- cohorts
+// Requests that share one dedup key while a miss is being resolved.  Groups of
+// 1 + f requests for one five-tuple each (followers spell the name in another
+// case or carry host bits in their ECS source); distinct groups differ from one
+// another in exactly the dimensions a cached failure must not cross (child /
+// parent / sibling name, type, CD, ECS audience).  A short prelude of ordinary
+// queries may have left an active failure or a cached answer.  Every leader is
+// parked inside the downstream handler, then every follower arrives (and parks
+// behind its leader's generation), then the leaders are released one at a time
+// (shared failure with or without a zone failure published on the way, every
+// request-local cause, useful answer, truncated reply) and after each release
+// the followers that woke into a miss and went downstream themselves are released
+// one at a time.  The run happens in a testing/synctest bubble: synctest.Wait() is
+// the exact barrier "every request is parked or has returned", so no verdict
+// depends on scheduling.  Observed per request: rcode, EDE, own downstream calls,
+// whether its downstream call began after its leader had returned.
+type vC13Member struct {
+	key     vC13QKey
+	edns    bool
+	d       vC13Down
+	rel     chan struct{}
+	done    chan struct{}
+	entered atomic.Bool
+	late    bool
+	rcode   int
+	ede     int
+	calls   int
+	scope   netip.Prefix
+}
+
+func vC13CohortDown(r *rand.Rand, g *vC13Gen, k vC13QKey, follower bool) vC13Down {
+	var d vC13Down
+	w := r.Intn(20)
+	if follower {
+		w = r.Intn(14) // what a follower that goes downstream itself would get
+	}
+	switch {
+	case w < 12:
+		d.kind = 0
+		d.rcode = []int{dns.RcodeServerFailure, dns.RcodeServerFailure, dns.RcodeRefused, dns.RcodeNotImplemented}[r.Intn(4)]
+		if r.Intn(4) == 0 {
+			if r.Intn(3) == 0 {
+				d.ctxErr = 1 + r.Intn(3)
+			}
+			if r.Intn(4) == 0 {
+				d.bestEffort = true
+			}
+			if r.Intn(4) == 0 {
+				d.workLimit = true
+			}
+			if r.Intn(3) == 0 || !d.local() {
+				d.marked = 1 + r.Intn(6)
+			}
+		}
+		if !d.local() && r.Intn(3) == 0 {
+			d.zoneAct = true
+			d.zoneClass = k.qclass
+			d.zone = g.caseMix(k.name[r.Intn(len(k.name)+1):])
+		}
+	case w < 17:
+		d.kind = 1
+		d.rcode = dns.RcodeNameError
+		if k.qtype == dns.TypeA && r.Intn(2) == 0 {
+			d.rcode = dns.RcodeSuccess
+		}
+		if k.scope.IsValid() && k.scope.Bits() >= 16 {
+			d.respScope = r.Intn(2) // no option / SCOPE=0: the answer is good for everyone
+		}
+		if r.Intn(3) == 0 {
+			d.zoneAct = true
+			d.zoneClass = k.qclass
+			d.zone = g.caseMix(k.name[r.Intn(len(k.name)+1):])
+		}
+	default:
+		d.kind = 2
+		d.rcode = []int{dns.RcodeServerFailure, dns.RcodeSuccess}[r.Intn(2)]
+	}
+	return d
+}
+
+func vC13CohortCase(t *testing.T, r *rand.Rand) map[string]any {
+	cfg, rawSize, rawInit, rawMax, off := vC13PipeConfig(r)
+	g := newVC13Gen(r)
+	g.scopes = []netip.Prefix{
+		{}, {}, {}, {},
+		netip.MustParsePrefix("198.51.100.0/24"),
+		netip.MustParsePrefix("203.0.113.0/24"),
+		netip.MustParsePrefix("2001:db8:1::/48"),
+	}
+	hostBits := map[string]netip.Prefix{
+		"198.51.100.0/24": netip.MustParsePrefix("198.51.100.77/24"),
+		"203.0.113.0/24":  netip.MustParsePrefix("203.0.113.9/24"),
+		"2001:db8:1::/48": netip.MustParsePrefix("2001:db8:1::53/48"),
+	}
+	g.types = []uint16{dns.TypeA, dns.TypeAAAA}
+	upper := func(n vC13Name) vC13Name {
+		out := make(vC13Name, len(n))
+		for i, l := range n {
+			b := append([]byte(nil), l...)
+			for j, c := range b {
+				if c >= 'a' && c <= 'z' && (i+j)%2 == 0 {
+					b[j] = c - 32
+				}
+			}
+			out[i] = b
+		}
+		return out
+	}
+	// groups: the first key, then keys one dimension away from an earlier one
+	base := g.qkey()
+	base.qclass = dns.ClassINET
+	keys := []vC13QKey{base}
+	ident := func(k vC13QKey) string {
+		sc := k.scope
+		if !sc.IsValid() || sc.Bits() == 0 {
+			sc = netip.Prefix{}
+		}
+		return fmt.Sprintf("%s|%d|%v|%s", strings.ToLower(k.name.pres()), k.qtype, k.cd, sc.Masked())
+	}
+	seen := map[string]bool{ident(base): true}
+	ng := 1 + r.Intn(3)
+	for tries := 0; len(keys) < ng && tries < 20; tries++ {
+		k := keys[r.Intn(len(keys))]
+		switch r.Intn(6) {
+		case 0:
+			k.qtype = g.types[r.Intn(len(g.types))]
+		case 1:
+			k.cd = !k.cd
+		case 2:
+			k.scope = g.scopes[r.Intn(len(g.scopes))]
+		case 3:
+			k.name = append(vC13Name{vC13RandLabel(r, false)}, k.name...)
+		case 4:
+			if len(k.name) > 0 {
+				k.name = k.name[1:]
+			}
+		case 5:
+			k = g.qkey()
+			k.qclass = dns.ClassINET
+		}
+		if !seen[ident(k)] {
+			seen[ident(k)] = true
+			keys = append(keys, k)
+		}
+	}
+	type group struct {
+		leader    *vC13Member
+		followers []*vC13Member
+	}
+	mk := func(k vC13QKey, follower bool) *vC13Member {
+		return &vC13Member{key: k, edns: r.Intn(4) != 0, d: vC13CohortDown(r, g, k, follower), rel: make(chan struct{}), done: make(chan struct{})}
+	}
+	var groups []*group
+	for _, k := range keys {
+		gr := &group{leader: mk(k, false)}
+		for i, nf := 0, r.Intn(4); i < nf; i++ {
+			fk := k
+			switch r.Intn(3) {
+			case 0:
+				fk.name = upper(k.name)
+			case 1:
+				if hb, ok := hostBits[k.scope.String()]; ok {
+					fk.scope = hb
+				}
+			}
+			gr.followers = append(gr.followers, mk(fk, true))
+		}
+		groups = append(groups, gr)
+	}
+
+	var out map[string]any
+	synctest.Test(t, func(t *testing.T) {
+		c := New(cfg)
+		defer c.Stop()
+		ednsH := ednsmw.New(cfg)
+		clock := &vC13Clock{now: vC13Base}
+		c.failure.now = clock.Now
+		init, max := c.failure.initialTTL, c.failure.maxTTL
+		tab := newVC13Tab()
+		var desc []string
+		memberCoq := func(kind string, m *vC13Member) string {
+			mkk := m.key
+			mkk.scope = m.scope
+			tab.addQuestion(mkk)
+			if m.d.zoneAct {
+				tab.addZone(m.d.zone, m.d.zoneClass)
+			}
+			edeC := "None"
+			if m.ede >= 0 {
+				edeC = fmt.Sprintf("(Some %d%%N)", m.ede)
+			}
+			desc = append(desc, fmt.Sprintf("%s %s edns=%v downstream{%s} -> rcode=%d ede=%d downstream_calls=%d began_after_leader_returned=%v", kind, mkk.coq(), m.edns, m.d.String(), m.rcode, m.ede, m.calls, m.late))
+			return fmt.Sprintf("CM %s %v %s %d %s %d %v", mkk.coq(), m.edns || m.key.scope.IsValid(), m.d.coq(), m.rcode, edeC, m.calls, m.late)
+		}
+		// prelude: ordinary queries, one after the other, at the same instant
+		var pre []string
+		for i, np := 0, r.Intn(3); i < np; i++ {
+			k := keys[r.Intn(len(keys))]
+			if r.Intn(2) == 0 && len(k.name) > 0 {
+				k.name = k.name[1:] // a parent: its zone failure covers the group
+			}
+			m := mk(k, true)
+			if m.d.kind == 1 && m.d.respScope >= 2 {
+				m.d.respScope = 0
+			}
+			m.rcode, m.ede, m.calls, m.scope = vC13Serve(c, ednsH, m.key, m.edns, false, false, m.d)
+			pre = append(pre, memberCoq("before", m))
+		}
+		launch := func(m *vC13Member) {
+			go func() {
+				defer close(m.done)
+				m.rcode, m.ede, m.calls, m.scope = vC13ServeHold(c, ednsH, m.key, m.edns, false, false, m.d, func() {
+					m.entered.Store(true)
+					<-m.rel
+				})
+			}()
+		}
+		finished := func(m *vC13Member) bool {
+			select {
+			case <-m.done:
+				return true
+			default:
+				return false
+			}
+		}
+		released := map[*vC13Member]bool{}
+		release := func(m *vC13Member) {
+			if !released[m] {
+				released[m] = true
+				close(m.rel)
+				synctest.Wait()
+			}
+		}
+		for _, gr := range groups {
+			launch(gr.leader)
+		}
+		synctest.Wait()
+		for _, gr := range groups {
+			for _, f := range gr.followers {
+				launch(f)
+			}
+		}
+		synctest.Wait()
+		early := map[*vC13Member]bool{} // in the downstream before any leader returned
+		inFlight := 0
+		for _, gr := range groups {
+			for _, m := range append([]*vC13Member{gr.leader}, gr.followers...) {
+				if m.entered.Load() {
+					early[m] = true
+					inFlight++
+				}
+			}
+		}
+		for _, gr := range groups {
+			release(gr.leader)
+			for _, f := range gr.followers {
+				if f.entered.Load() && !finished(f) {
+					f.late = !early[f]
+					release(f)
+				}
+			}
+		}
+		// nothing may be left parked; a request that is gets released and reported
+		stuck := 0
+		for _, gr := range groups {
+			for _, m := range append([]*vC13Member{gr.leader}, gr.followers...) {
+				if !finished(m) {
+					stuck++
+					m.late = m.entered.Load() && !early[m]
+					release(m)
+				}
+			}
+		}
+		goFail := ""
+		for _, gr := range groups {
+			for _, m := range append([]*vC13Member{gr.leader}, gr.followers...) {
+				if !finished(m) {
+					goFail = "a request of the cohort never returned"
+				}
+			}
+		}
+		if stuck > 0 && goFail == "" {
+			goFail = fmt.Sprintf("%d request(s) still waiting after their leader and every earlier request had returned", stuck)
+		}
+		var gs []string
+		served, solo, nf := 0, 0, 0
+		for _, gr := range groups {
+			var fs []string
+			lc := memberCoq("leader", gr.leader)
+			for _, f := range gr.followers {
+				nf++
+				fs = append(fs, memberCoq("  follower", f))
+				if f.calls == 0 && f.rcode == dns.RcodeServerFailure {
+					served++
+				}
+				if f.calls > 0 {
+					solo++
+				}
+			}
+			gs = append(gs, fmt.Sprintf("(%s,[%s])", lc, strings.Join(fs, ";")))
+		}
+		final, flen := vC13Dump(c.failure)
+		kk := "cohort"
+		if off {
+			kk = "cohort-rfc9520-off"
+		}
+		out = map[string]any{
+			"k": kk,
+			"coq": fmt.Sprintf("CaseCohort (%d) (%d) (%d) %v (%d) (%d) %s [%s] [%s] %d %s", rawSize, int64(rawInit), int64(rawMax), off, int64(init), int64(max), tab.coq(), strings.Join(pre, ";"), strings.Join(gs, ";"), inFlight, final),
+			"nontrivial": nf > 0 && (served > 0 || solo > 0),
+			"desc": map[string]any{"effective": init.String() + ".." + max.String(), "rfc9520_off": off, "requests": desc, "in_downstream_before_any_leader_returned": inFlight,
+				"followers": nf, "followers_served_from_failure_cache": served, "followers_sent_downstream": solo, "failure_len": flen},
+		}
+		if goFail != "" {
+			out["go_fail"] = goFail
+		}
+	})
+	return out
+}
+
 // ---------------------------------------------------------------- corpus
 // Fixed recovery episodes (VERIF_CORPUS/pipe.json), replayed first on every
 // run: question fails -> backoff ends -> the probe brings a useful answer (with
@@ -1289,5 +1619,8 @@ func TestVerifC13Pipe(t *testing.T) {
 	}
 	for i := 0; i < n/25+6; i++ {
 		tr.emit(vC13TimeoutCase(r))
+	}
+	for i := 0; i < n/5+10; i++ {
+		tr.emit(vC13CohortCase(t, r))
 	}
 }
